@@ -3,6 +3,16 @@
 
 #include "exec_impl.hpp"
 
+#if defined(__has_feature)
+#if __has_feature(address_sanitizer)
+#include <sanitizer/asan_interface.h>
+#define SIM_POISONED(p) (__asan_address_is_poisoned(p) != 0)
+#endif
+#endif
+#ifndef SIM_POISONED
+#define SIM_POISONED(p) false
+#endif
+
 namespace sim {
 
 namespace {
@@ -18,6 +28,7 @@ void do_call(MockType& m, int fn, int a0, int a1, Obs& o, int& argcell, std::str
     case FN_C: { const MockType& cm = m; o.value = cm.c(a0); o.outcome = OC_RET_INT; break; }
     case FN_U: { std::unique_ptr<Tracked> p(new Tracked(a0)); tracked = p.get(); o.value = m.u(std::move(p)); o.outcome = OC_RET_INT; break; }
     case FN_S: { strarg = std::to_string(a0); o.sval = m.s(strarg); o.outcome = OC_RET_STR; break; }
+    case FN_K: { argcell = a0; const MockType& cm = m; const int& r = cm.k(argcell); o.refaddr = &r; o.outcome = OC_RET_REF; break; }  // value read later, only through an address we trust
     default: break;
   }
 }
@@ -38,7 +49,7 @@ std::string ExecImpl::param_text(const MExp& e, int i, bool& negated) const {
   switch (m.kind) {
     case MK_ANY: return " matching _";
     case MK_TYPEDANY:
-      return std::string(" matching ANY(") + (k == 'i' ? "int" : k == 'r' ? "int&" : k == 's' ? "const std::string&" : "std::unique_ptr<sim::Tracked>") + ")";
+      return std::string(" matching ANY(") + (k == 'i' ? "int" : k == 'r' ? "int&" : k == 'c' ? "const int&" : k == 's' ? "const std::string&" : "std::unique_ptr<sim::Tracked>") + ")";
     case MK_VAL: case MK_EQ: return " == " + v;
     case MK_NE: return " != " + v;
     case MK_LT: return " < " + v;
@@ -58,7 +69,7 @@ void ExecImpl::op_call(const Op& op) {
   const int args[2] = {op.a[2], op.a[3]};
   const FnDesc& fd = fn_desc(fn);
   if (depth > 1) ++st.p_nested_call;
-  if (M.mocks[static_cast<size_t>(mock)].moved_to) ++st.p_moved_mock_call;
+  if (M.mocks[static_cast<size_t>(mock)].moved_to) { ++st.p_moved_mock_call; ctx_moved_mock = true; nontriv("C14"); }
   nontriv("C01"); nontriv("C16");
 
   // ---------- model: who is the designated candidate ----------
@@ -179,7 +190,7 @@ void ExecImpl::op_call(const Op& op) {
   int argcell = 0; std::string strarg; const Tracked* tracked = nullptr;
   long copies0 = Tracked::copies;
   const int top_tracer = M.tracers.empty() ? -1 : M.tracers.back();
-  const int gen = M.reporter_gen;
+  const int gen = M.ok_gen;
   try {
     RMock& r = rmocks[static_cast<size_t>(mock)];
     if (r.kind) do_call(*r.m, fn, args[0], args[1], o, argcell, strarg, tracked);
@@ -192,6 +203,22 @@ void ExecImpl::op_call(const Op& op) {
   catch (int v) { o.outcome = OC_THREW_INT; o.value = v; }
   catch (...) { o.outcome = OC_THREW_OTHER; }
   o.tracked_copies = Tracked::copies - copies0;
+  if ((fn == FN_K || fn == FN_R) && o.outcome == OC_RET_REF && o.refaddr && SIM_POISONED(o.refaddr)) {
+    ctx_stack.pop_back(); obs_stack.pop_back();
+    for (int id : newly_busy) busy_exps.erase(id);
+    if (mock_newly_busy) busy_mocks.erase(mock);
+    fail("C08,C09", "dangling_reference", "the reference returned to the caller points into memory that is already dead (returned object is not 'that very object')");
+    return;
+  }
+  if (fn == FN_K && o.outcome == OC_RET_REF) {
+    // read the referenced value only through an address the harness knows to be alive
+    if (o.refaddr == &argcell) o.value = argcell;
+    else for (auto& c : o.clauses) if (c.kind == 'R' && c.a2 == o.refaddr && c.inst >= 0 && static_cast<size_t>(c.inst) < rexps.size()) {
+      const RExp& re = rexps[static_cast<size_t>(c.inst)];
+      if (re.cell && o.refaddr == re.cell.get()) o.value = *re.cell;
+      else { auto it = capt_addr.find(c.inst); if ((it != capt_addr.end() && it->second == o.refaddr) || it == capt_addr.end()) o.value = *static_cast<const int*>(o.refaddr); }
+    }
+  }
   ctx_stack.pop_back();
   obs_stack.pop_back();
   for (int id : newly_busy) busy_exps.erase(id);
@@ -333,14 +360,14 @@ void ExecImpl::op_call(const Op& op) {
         fail("C08", "action_order", os.str());
         return;
       }
-      bool lr = c.kind == 'S' ? d.se_lr[c.k] : (d.rk == RK_LRVAL || d.rk == RK_LRSTR || d.rk == RK_REF_PARAM || d.rk == RK_REF_CELL);
+      bool lr = c.kind == 'S' ? d.se_lr[c.k] : (d.rk == RK_LRVAL || d.rk == RK_LRSTR || d.rk == RK_REF_PARAM || d.rk == RK_REF_CELL || d.rk == RK_CREF_CELL);
       long wantsnap = lr ? c.msnap : e.snap0;
       if (c.val != wantsnap) {
         fail("C09", "capture_time", std::string(lr ? "LR_ " : "plain ") + "clause " + c.kind + std::to_string(c.k) + " of " + describe_exp(cand) + " saw local = " + std::to_string(c.val) + ", expected " + std::to_string(wantsnap) + " (value at creation " + std::to_string(e.snap0) + ", when the clause ran " + std::to_string(c.msnap) + ")");
         return;
       }
       if (c.kind == 'S' || (d.rk != RK_THROW_STD && d.rk != RK_THROW_INT)) {
-        const void* wantaddr = fn == FN_R ? static_cast<const void*>(&argcell) : fn == FN_S ? static_cast<const void*>(&strarg) : fn == FN_U ? static_cast<const void*>(tracked) : nullptr;
+        const void* wantaddr = (fn == FN_R || fn == FN_K) ? static_cast<const void*>(&argcell) : fn == FN_S ? static_cast<const void*>(&strarg) : fn == FN_U ? static_cast<const void*>(tracked) : nullptr;
         if (wantaddr && c.a1 != wantaddr) { fail("C09", "alias", std::string("_1 in clause ") + c.kind + std::to_string(c.k) + " of " + describe_exp(cand) + " does not alias the caller's argument"); return; }
         if (!wantaddr) { if (seen_a1 && c.a1 != seen_a1) { fail("C09", "alias_stable", "_1 has different addresses in different clauses of one call"); return; } seen_a1 = c.a1; }
       }
@@ -370,7 +397,19 @@ void ExecImpl::op_call(const Op& op) {
       case RK_STR: wo = OC_RET_STR; ws = std::to_string(code_plain); break;
       case RK_LRSTR: wo = OC_RET_STR; ws = std::to_string(code_lr); break;
       case RK_REF_PARAM: wo = OC_RET_REF; wa = &argcell; break;
-      case RK_REF_CELL: wo = OC_RET_REF; wa = rexps[static_cast<size_t>(cand)].cell.get(); break;
+      case RK_REF_CELL: case RK_CREF_CELL: wo = OC_RET_REF; wa = rexps[static_cast<size_t>(cand)].cell.get(); break;
+      case RK_CREF_PARAM: wo = OC_RET_REF; wa = &argcell; break;
+      case RK_CREF_CAPT: {
+        // a reference to the expectation's own (captured-at-creation) copy: the same object on every call
+        wo = OC_RET_REF;
+        const void*& first = capt_addr[cand];
+        if (!first && o.outcome == OC_RET_REF) {
+          // trust it only if the RETURN clause itself saw that very object
+          for (auto& c : o.clauses) if (c.kind == 'R' && c.inst == cand && c.a2 == o.refaddr) first = o.refaddr;
+        }
+        wa = first ? first : static_cast<const void*>(&first);  // (never equal to a returned address when unset)
+        break;
+      }
       case RK_THROW_STD: wo = OC_THREW_STD; ws = "inst " + std::to_string(cand); break;
       case RK_THROW_INT: wo = OC_THREW_INT; wv = cand; break;
     }
@@ -378,6 +417,7 @@ void ExecImpl::op_call(const Op& op) {
     if (ok && (wo == OC_RET_INT || wo == OC_THREW_INT)) ok = o.value == wv;
     if (ok && (wo == OC_RET_STR || wo == OC_THREW_STD)) ok = o.sval == ws;
     if (ok && wo == OC_RET_REF) ok = o.refaddr == wa;
+    if (ok && wo == OC_RET_REF && d.rk == RK_CREF_CAPT && *static_cast<const int*>(o.refaddr) != e.v[0]) ok = false;
     if (!ok) {
       std::ostringstream os;
       os << "caller received " << outcome_name(o.outcome) << ' ' << o.value << ' ' << o.sval << " but " << describe_exp(cand) << " should give " << outcome_name(wo) << ' ' << wv << ' ' << ws << "; " << call_desc();
